@@ -2,7 +2,8 @@
 //! poulpy_cpu_ref::reference::ntt120::{arithmetic, mat_vec} (generic in the prime set) and the `Ntt*` trait
 //! implementations of NTT120Ref / NTT120Avx (Primes30 only).
 //!
-//! header: be pset [extra]      be: 3 = reference functions `*_ref::<P>`, 4 = NTT120Avx through the traits,
+//! header: be pset (padded with zeros; every other argument travels in the vectors, e.g. the mask of 7102 is vs[1][0])
+//!                              be: 3 = reference functions `*_ref::<P>`, 4 = NTT120Avx through the traits,
 //!                                  5 = NTT120Ref through the traits;   pset: 29 | 30 | 31 (traits: 30 only)
 //! u64 / u32 values travel as non-negative numbers, i128 outputs as they are.
 //!
@@ -46,7 +47,7 @@ fn ref_op<P: PrimeSet>(r: &Rec) -> Vec<Vec<i128>> {
             vec![a, b, c, from_u64(&Q_SHIFTED)]
         }
         7101 => { let xi = v64(x); let mut res = vec![0u64; 4 * xi.len()]; b_from_znx64_ref::<P>(xi.len(), &mut res, &xi); vec![from_u64(&res)] }
-        7102 => { let xi = v64(x); let mut res = vec![0u64; 4 * xi.len()]; b_from_znx64_masked_ref::<P>(xi.len(), &mut res, &xi, r.ps[2] as i64); vec![from_u64(&res)] }
+        7102 => { let xi = v64(x); let mut res = vec![0u64; 4 * xi.len()]; b_from_znx64_masked_ref::<P>(xi.len(), &mut res, &xi, y[0] as i64); vec![from_u64(&res)] }
         7103 => { let xi = v64(x); let mut res = vec![0u32; 8 * xi.len()]; c_from_znx64_ref::<P>(xi.len(), &mut res, &xi); vec![from_u32(&res)] }
         7104 => { let xu = to_u64(x); let nn = xu.len() / 4; let mut res = vec![0u32; 8 * nn]; c_from_b_ref::<P>(nn, &mut res, &xu); vec![from_u32(&res)] }
         7105 => { let xu = to_u64(x); let nn = xu.len() / 4; let mut res = vec![0i128; nn]; b_to_znx128_ref::<P>(nn, &mut res, &xu); vec![res] }
@@ -90,7 +91,7 @@ where
     let y = r.vs.get(1).unwrap_or(&e);
     match r.code {
         7101 => { let xi = v64(x); let mut res = vec![0u64; 4 * xi.len()]; B::ntt_from_znx64(&mut res, &xi); vec![from_u64(&res)] }
-        7102 => { let xi = v64(x); let mut res = vec![0u64; 4 * xi.len()]; B::ntt_from_znx64_masked(&mut res, &xi, r.ps[2] as i64); vec![from_u64(&res)] }
+        7102 => { let xi = v64(x); let mut res = vec![0u64; 4 * xi.len()]; B::ntt_from_znx64_masked(&mut res, &xi, y[0] as i64); vec![from_u64(&res)] }
         7104 => { let xu = to_u64(x); let nn = xu.len() / 4; let mut res = vec![0u32; 8 * nn]; B::ntt_c_from_b(nn, &mut res, &xu); vec![from_u32(&res)] }
         7105 => { let xu = to_u64(x); let nn = xu.len() / 4; let mut res = vec![0i128; nn]; B::ntt_to_znx128(&mut res, nn, &xu); vec![res] }
         7106 => { let (xu, yu) = (to_u64(x), to_u64(y)); let mut res = vec![0u64; xu.len()]; B::ntt_add(&mut res, &xu, &yu); vec![from_u64(&res)] }
@@ -158,10 +159,10 @@ fn u64_val(rng: &mut Rng, q: u64, lim: u128) -> i128 {
     (if v < lim { v } else { v % lim }) as i128
 }
 fn q120b(rng: &mut Rng, pset: i128, n: usize, dom: u32) -> Vec<i128> {
-    // dom: 0 = any u64, 1 = below Q << 33, 2 = below 2 * (Q << 33)
+    // dom: 0 = any u64, 1 = below Q << 33, 2 = below 2 * (Q << 33), 3 = below 2^63
     let q = q_of(pset);
     (0..4 * n).map(|i| { let qk = q[i % 4]; let qs = (qk as u128) << 33;
-        let lim = match dom { 1 => qs, 2 => (2 * qs).min(1u128 << 64), _ => 1u128 << 64 }; u64_val(rng, qk, lim) }).collect()
+        let lim = match dom { 1 => qs, 2 => (2 * qs).min(1u128 << 64), 3 => 1u128 << 63, _ => 1u128 << 64 }; u64_val(rng, qk, lim) }).collect()
 }
 fn u32s(rng: &mut Rng, n: usize, class: u64) -> Vec<i128> {
     (0..n).map(|_| (match class { 0 => u32::MAX as u64, 1 => 0, 2 => rng.pick(&[0u64, 1, u32::MAX as u64, 1 << 31, (1 << 31) - 1, 1 << 16]), _ => rng.next() & 0xFFFF_FFFF }) as i128).collect()
@@ -190,13 +191,15 @@ pub fn generate(tier: &str, rng: &mut Rng, out: &mut Vec<Rec>) {
         let pset: i128 = if be == 3 { rng.pick(&[29, 30, 30, 31]) } else { 30 };
         let avx = be == 4;
         let n = rng.range(1, 12) as usize;
-        let mut ps = vec![be, pset];
+        let ps = vec![be, pset];
         let mut vs: Vec<Vec<i128>> = vec![];
         match code {
             7101 | 7103 | 7115 => vs.push(i64s(rng, n, 40)),
-            7102 => { let rv = rng.i64(); ps.push(rng.pick(&[-1i64, 0, 1, (1 << 17) - 1, i64::MAX, i64::MIN, -(1 << 20), rv]) as i128); vs.push(i64s(rng, n, 40)); }
+            7102 => { let rv = rng.i64(); let mask = rng.pick(&[-1i64, 0, 1, (1 << 17) - 1, i64::MAX, i64::MIN, -(1 << 20), rv]) as i128; vs.push(i64s(rng, n, 40)); vs.push(vec![mask]); }
             7104 | 7105 => vs.push(q120b(rng, pset, n, if avx { 1 } else { 0 })),
-            7106 | 7108 => { let d = if avx { 2 } else { 0 }; vs.push(q120b(rng, pset, n, d)); vs.push(q120b(rng, pset, n, d)); }
+            // add_bbb_ref::<Primes31>: Q << 33 is close to 2^64, the documented `fits in 64 bits` does not hold (finding, see
+            // theorem add_bbb_primes31_refuted); the stream stays where the u64 sum cannot wrap
+            7106 | 7108 => { let d = if avx { 2 } else if pset == 31 { 3 } else { 0 }; vs.push(q120b(rng, pset, n, d)); vs.push(q120b(rng, pset, n, d)); }
             7109 => vs.push(q120b(rng, pset, n, if avx { 2 } else { 0 })),
             7107 => { let a = q120c(rng, pset, n); let b = q120c(rng, pset, n); vs.push(a); vs.push(b); }
             7110..=7112 => {
